@@ -155,18 +155,31 @@ def run_case(case):
     # 2. converter output inserted verbatim, once per symbol carrying an equation, in symbol order
     text = fsic.build_model_definition(symbols, converter=marker_converter)
     carriers = [s for s in symbols if s.type.name in ('ENDOGENOUS', 'VERBATIM') and s.equation is not None and s.code is not None]
-    pos = 0
+    lines = text.split('\n')
+    at = 0
     for s in carriers:
-        block = textwrap.indent(marker_converter(s), '        ')
-        at = text.find(block, pos)
-        if at < 0:
-            out.append(('converter-placement', block[:120], 'not found in order', 'converter output is not inserted verbatim / in symbol order'))
+        want = marker_converter(s).split('\n')
+        found = None
+        for i in range(at, len(lines)):
+            if lines[i].strip() == want[0].strip() and lines[i].strip().startswith('# MARK<'):
+                indent = lines[i][:len(lines[i]) - len(lines[i].lstrip())]
+                if [indent + w if w.strip() else w for w in want] == [l if l.strip() else l.strip() for l in lines[i:i + len(want)]] or \
+                        [indent + w for w in want] == lines[i:i + len(want)]:
+                    found = i
+                break
+        if found is None:
+            out.append(('converter-placement', want[:3], 'not found verbatim (modulo a uniform indent) in symbol order', 'converter output is not inserted verbatim / in symbol order'))
             break
-        pos = at + len(block)
+        at = found + len(want)
     if text.count('# MARK<') != len(carriers):
         out.append(('converter-count', len(carriers), text.count('# MARK<'), 'converter must run once per symbol that carries an equation'))
-    if not carriers and 'pass' not in text.split('"""')[-1]:
-        out.append(('no-equations-body', 'pass', text.split('"""')[-1][:80], 'a model without equations must have an empty evaluation body'))
+    if not carriers:
+        M0 = fsic.build_model(symbols)
+        m0 = M0(range(4))
+        before0 = [m0[n].tobytes() for n in m0.index]
+        m0._evaluate(1)
+        if [m0[n].tobytes() for n in m0.index] != before0:
+            out.append(('no-equations-body', 'evaluation changes nothing', 'changed', 'a model without equations must have an empty evaluation body'))
     # 3. option lattice x routes (default converter, typed)
     depth = [0, 0]
     for s in symbols:
